@@ -11,6 +11,16 @@ const D: [char; 3] = ['0', '7', '9'];
 const O: [char; 8] = ['$', '-', ' ', '.', '\'', '<', '!', '\u{7f}'];
 const U: [char; 5] = ['é', 'ß', '名', '\u{1F600}', 'а' /* cyrillic a */];
 
+/// EVERY member of a class (ASCII completely; a spread of non-ASCII letters, numerics, marks, format characters)
+fn members(class: &str) -> Vec<char> {
+    match class {
+        "L" => ('a'..='z').chain('A'..='Z').filter(|c| *c != 'r').collect(),
+        "D" => ('0'..='9').collect(),
+        "O" => (0u8..128).map(|b| b as char).filter(|c| class_of(*c) == "O").collect(),
+        "U" => vec!['é', 'ß', '名', '\u{1F600}', 'а', '²', '½', '٣', '１', 'Ⅷ', '\u{301}', '\u{200d}', '\u{feff}', '·', '\u{80}', '\u{ff}', 'ǅ', 'ª', '\u{10ffff}'],
+        _ => vec![],
+    }
+}
 fn concretize(cls: &Value, rot: usize) -> String {
     cls.as_array()
         .unwrap()
@@ -91,7 +101,7 @@ fn expect_new(e: &Value) -> Value {
 
 fn replay(cases: &str, outp: &str) {
     let mut out = Out::create(outp);
-    let (mut n, mut bad) = (0u64, 0u64);
+    let (mut n, mut bad, mut swept) = (0u64, 0u64, 0u64);
     for (ci, c) in read_ndjson(cases).iter().enumerate() {
         for rot in 0..3usize {
             n += 1;
@@ -149,9 +159,28 @@ fn replay(cases: &str, outp: &str) {
                 out.put(&json!({"case": ci, "rot": rot, "input": c, "mismatch": mism}));
             }
         }
+        // the WHOLE class at every position of the short strings: the verdict depends on the class only, so every
+        // member must get it (boundaries of the ASCII ranges, every digit, every control character, ...)
+        if c["k"] == "ident" && c["s"].as_array().unwrap().len() <= 3 {
+            let base: Vec<char> = concretize(&c["s"], 0).chars().collect();
+            for (p, cl) in c["s"].as_array().unwrap().iter().enumerate() {
+                for m in members(cl[0].as_str().unwrap()) {
+                    let mut v = base.clone();
+                    v[p] = m;
+                    let s: String = v.into_iter().collect();
+                    let s1 = st(&s);
+                    swept += 1;
+                    let got = matches!(guarded(move || Path::from_segments([s1]).is_ok()), Ok(true));
+                    if got != c["ok"].as_bool().unwrap() {
+                        bad += 1;
+                        out.put(&json!({"case": ci, "rot": 0, "input": c, "mismatch": [format!("from_segments([{s:?}]) ok={got} expected {} (class sweep, position {p})", c["ok"])]}));
+                    }
+                }
+            }
+        }
     }
     out.flush();
-    println!("{}", json!({"executed": n, "mismatching_cases": bad}));
+    println!("{}", json!({"executed": n, "swept": swept, "mismatching_cases": bad}));
 }
 
 fn rand_string(rng: &mut StdRng) -> String {
